@@ -20,6 +20,8 @@ fn main() {
         "instruction_views" => instruction_views(&input),
         "used_qubits" => used_qubits(&input),
         "serialize_repeat" => serialize_repeat(&input),
+        "literal_exact" => literal_exact(&input),
+        "name_spelling" => name_spelling(&input),
         other => {
             eprintln!("unknown replay kind {other}");
             std::process::exit(64);
@@ -142,6 +144,60 @@ fn serialize_repeat(text: &str) -> Result<(), String> {
             it.next().unwrap(),
             it.next().unwrap()
         ));
+    }
+    Ok(())
+}
+
+/// C05: each input line is `MOVE ro <literal>`; the integer literal must come back with its exact mathematical
+/// value, or the line must be rejected — never wrapped
+fn literal_exact(text: &str) -> Result<(), String> {
+    use quil_rs::instruction::{ArithmeticOperand, Move};
+    for line in text.lines().filter(|l| !l.trim().is_empty()) {
+        let literal = line.trim().rsplit(' ').next().unwrap_or("");
+        let expected: Option<i128> = literal.parse::<i128>().ok();
+        let parsed = Program::from_str(line);
+        match (&parsed, expected) {
+            (Ok(p), Some(want)) => {
+                let got = p.body_instructions().next().and_then(|i| match i {
+                    Instruction::Move(Move { source: ArithmeticOperand::LiteralInteger(v), .. }) => Some(*v as i128),
+                    _ => None,
+                });
+                println!("{line}  =>  {got:?}");
+                if got != Some(want) {
+                    return Err(format!("`{line}`: literal {want} was parsed as {got:?}"));
+                }
+            }
+            (Ok(_), None) => println!("{line}  =>  parsed (not an integer literal)"),
+            (Err(_), Some(want)) => {
+                println!("{line}  =>  rejected");
+                if want >= i64::MIN as i128 && want <= i64::MAX as i128 {
+                    return Err(format!("`{line}`: representable literal {want} was rejected"));
+                }
+            }
+            (Err(_), None) => println!("{line}  =>  rejected"),
+        }
+    }
+    Ok(())
+}
+
+/// C06: a memory region referenced inside an expression keeps the spelling it was declared with
+fn name_spelling(text: &str) -> Result<(), String> {
+    let program = Program::from_str(text).map_err(|e| format!("input does not parse: {e}"))?;
+    let declared: Vec<&String> = program.memory_regions.keys().collect();
+    for instruction in program.body_instructions() {
+        if let Instruction::Gate(gate) = instruction {
+            for parameter in &gate.parameters {
+                for reference in parameter.memory_references() {
+                    println!("expression references region `{}`; declared: {:?}", reference.name, declared);
+                    if !declared.contains(&&reference.name) {
+                        return Err(format!(
+                            "expression refers to region `{}` but the program declares {:?}",
+                            reference.name, declared
+                        ));
+                    }
+                }
+            }
+        }
     }
     Ok(())
 }
